@@ -283,3 +283,23 @@ package session
 //@   ensures[C10] @nothingelse imp(perr == nil && merr != nil, resentN == old(resentN))
 //@   ensures[C10] @toend imp(perr == nil && old(s.state) == SuccessfulLogged && cerr == nil && berr == nil && mEndSeqNo(req) == 0 && 1 <= mBeginSeqNo(req) && mBeginSeqNo(req) <= cOut(s.counter) && allStored(gHas(s.messageStorage), mBeginSeqNo(req), cOut(s.counter)), resentN == old(resentN) + cOut(s.counter) - mBeginSeqNo(req) + 1)
 //@   ensures[C16] @stable s.state == old(s.state)
+
+// ---- Logout and Stop (C15) -----------------------------------------------------------------
+//@ func (s *Session) Logout() (err error)
+//@   requires sessWF(s) && sessInv(s) && !sendFailed
+//@   requires[C07] everLogged
+//@   modifies sentN, sentAt, sendFailed, clock, s.counter.*, gOut(s.counter), gIn(s.counter), s.state, everLogged, trigN, trigAt, routerStopped, timersStarted
+//@   ensures[C15] err == nil && s.state == WaitingLogoutAnswer
+//@   ensures[C15] @one imp(!sendFailed, sentN == old(sentN) + 1 && mrole(sel(sentAt, old(sentN))) == 2)
+
+// Stop: sends a Logout, arms the close timeout, and leaves a handler registered
+// that cancels the context as soon as the peer's Logout answer is signalled
+//@ func (s *Session) Stop() (err error)
+//@   requires sessWF(s) && sessInv(s) && !sendFailed
+//@   requires[C07] everLogged
+//@   safety[C15]
+//@   modifies sentN, sentAt, sendFailed, clock, s.counter.*, gOut(s.counter), gIn(s.counter), s.state, everLogged, trigN, trigAt, routerStopped, timersStarted, s.eventHandler.pool, MAP
+//@   call AfterFunc#1:
+//@     assert[C15] @deadline arg0 == s.LogonSettings.CloseTimeout
+//@   ensures[C15] @logout imp(!sendFailed, sentN == old(sentN) + 1 && mrole(sel(sentAt, old(sentN))) == 2)
+//@   ensures[C15] @answerhandler imp(err == nil, s.eventHandler.pool != nil && mhas(s.eventHandler.pool, utils.EventLogout) && len(mget(s.eventHandler.pool, utils.EventLogout)) >= 1)
